@@ -885,6 +885,36 @@ theorem list_tiebreak_quota_tie (quota : Rat → Nat → Rat) (eq : Bool) (votes
   rw [quota_selector_overflow_select]
   exact this
 
+/-- **Zero seats.**  Asked for no seats the evaluator seats nobody (whenever it answers at all), and with at least one
+    seat `thresholdOpenListAt` is `thresholdOpenList`: the ZeroDivisionError of the seat-dividing quota functions is the
+    only thing `n_seats = 0` adds. -/
+theorem openlist_zero_seats (cfg : OpenListCfg) (votes : Votes) (clist : List Cand) (r : List Cand)
+    (h : thresholdOpenList cfg votes 0 clist = .ok r) : r = [] := by
+  cases hthr : jumpThreshold cfg (sumVals votes) 0 with
+  | none =>
+    rw [openlist_no_threshold cfg votes 0 clist hthr] at h
+    cases h; rfl
+  | some thr =>
+    by_cases hfit : (jumpers cfg.acceptEqual thr votes).length ≤ 0
+    · rw [openlist_fill cfg votes 0 clist thr hthr hfit] at h
+      have : jumpers cfg.acceptEqual thr votes = [] := List.length_eq_zero_iff.mp (by omega)
+      cases h; simp [this]
+    · have hover : 0 < (jumpers cfg.acceptEqual thr votes).length := by omega
+      cases hlp : cfg.listPrecedence with
+      | false =>
+        rw [openlist_overflow_by_votes cfg votes 0 clist thr hthr hover hlp] at h
+        cases h; rfl
+      | true =>
+        rw [openlist_overflow_by_list cfg votes 0 clist thr hthr hover hlp] at h
+        split at h
+        · cases h; simp [sortBy]
+        · cases h
+
+theorem openlist_at_pos (d : Bool) (cfg : OpenListCfg) (votes : Votes) (n : Nat) (clist : List Cand) (hn : 1 ≤ n) :
+    thresholdOpenListAt d cfg votes n clist = thresholdOpenList cfg votes n clist := by
+  unfold thresholdOpenListAt
+  rw [if_neg (by omega)]
+
 /-- **When the open-list evaluator refuses.**  The only exception is the ValueError of `list.index`: a threshold is
     configured, more candidates jump than there are seats, the list takes precedence, and one of the jumpers is not
     on the list.  In particular it always answers when everybody who received votes is on the list. -/
